@@ -813,8 +813,9 @@ static size_t bign96Verify_deep(size_t n, size_t f_deep, size_t ec_d,
 	size_t ec_deep)
 {
 	return O_OF_W(4 * n) +
-		utilMax(2,
+		utilMax(3,
 			beltHash_keep(),
+			ecpIsOnA_deep(n, f_deep),
 			ecAddMulA_deep(n, ec_d, ec_deep, 2, n, n / 2 + 1));
 }
 
@@ -866,7 +867,8 @@ err_t bign96Verify(const bign_params* params, const octet oid_der[],
 	stack = (octet*)(s1 + n);
 	// загрузить Q
 	if (!qrFrom(ecX(Q), pubkey, ec->f, stack) ||
-		!qrFrom(ecY(Q, n), pubkey + 24, ec->f, stack))
+		!qrFrom(ecY(Q, n), pubkey + 24, ec->f, stack) ||
+		!ecpIsOnA(Q, ec, stack))
 	{
 		blobClose(state);
 		return ERR_BAD_PUBKEY;
